@@ -216,7 +216,7 @@ func checkC18(w *World, r *Report) {
 	r.Sub(checkC12, "CN-GUARD")
 	r.Sub(checkC05, "FP-REMAINDER", "FP-CAP", "BATCH-CAP")
 	r.Sub(checkC06, "FP-ACCEPT")
-	r.Sub(checkC08, "OPEN-GUARD", "TIME-POL", "BB-BEGIN")
+	r.Sub(checkC08, "OPEN-GUARD", "TIME-POL", "BB-BEGIN", "BB-EVERY")
 	r.Sub(checkC10, "AL-DOM", "AL-GUARD")
 	r.Sub(checkC13, "EXT-BOUND")
 	// "sufficient funds": the amount a message must be able to pay is the amount its record requires
